@@ -232,7 +232,9 @@ def into_iter(vm, v):
     if isinstance(v, HList): return It('list', list(v.items), 0)
     if isinstance(v, Adt) and v.ty == 'Option': return It('list', list(v.fields) if v.variant == 1 else [], 0)
     if isinstance(v, Adt) and v.ty in ('Range',): return It('range', v.fields[0], v.fields[1])
-    if isinstance(v, HMap): return It('list', [tup(k, x) for k, x in ordered_entries(vm, v)], 0)
+    if isinstance(v, HMap):
+        if str(v.order_tag).startswith('hs') or (v.entries and all(x is UNIT for _, x in v.entries)): return It('list', [k for k, _ in ordered_entries(vm, v)], 0)      # a set yields its elements
+        return It('list', [tup(k, x) for k, x in ordered_entries(vm, v)], 0)
     if isinstance(v, (Adt, SymEnum)): return v               # crate iterator by value
     raise Unmodelled(f'into_iter of {v!r}')
 
@@ -535,6 +537,21 @@ def _(vm, a, ci):
     return n(a[0])
 
 
+@trait(('Iterator', 'eq'), ('Iterator', 'ne'), ('Iterator', 'eq_by'))
+def _(vm, a, ci):
+    """lexicographic equality of two iterators (elements compared by PartialEq, or by the closure for eq_by)"""
+    other = into_iter(vm, a[1]) if not isinstance(obj(vm, a[1]), (It,)) else a[1]
+    res = True
+    while True:
+        x, y = it_next(vm, a[0]), it_next(vm, other)
+        if x is None or y is None:
+            res = x is None and y is None; break
+        if ci.method == 'eq_by': e = truth(vm, vm.call_value(a[2], [x[0], y[0]]))
+        else: e = truth(vm, values_eq(vm, (ci.targs[0] if getattr(ci, 'targs', None) else '') or '', x[0], y[0]))
+        if not e: res = False; break
+    return (not res) if ci.method == 'ne' else res
+
+
 @trait(('Iterator', 'last'))
 def _(vm, a, ci):
     last = None
@@ -658,6 +675,12 @@ def collect_into(vm, target, it):
         hm = HMap([], head == 'BTreeMap', vm.fresh('hm'))
         for kv in drain(vm, into_iter(vm, it)): hmap_insert(vm, hm, ta[0], kv.fields[0], kv.fields[1])
         return hm
+    if head in ('HashSet', 'BTreeSet'):
+        from .std_coll import hmap_find
+        hm = HMap([], head == 'BTreeSet', vm.fresh('hs'))
+        for k in drain(vm, into_iter(vm, it)):
+            if hmap_find(vm, hm, ta[0] if ta else '', k) is None: hm.entries.append([k, UNIT])
+        return hm
     if head in ('Result', 'Option'):
         out = []
         inner = into_iter(vm, it)
@@ -707,6 +730,61 @@ def _widths(s):
 
 @trait(('Itertools', 'collect_vec'))
 def _(vm, a, ci): return Adt('Vec', 0, [HList(drain(vm, a[0]))])
+
+
+@trait(('Itertools', 'merge'), ('Itertools', 'merge_by'))
+def _(vm, a, ci):
+    """itertools merge: repeatedly take the smaller head (ties: the left one); eager here (bounded inputs)"""
+    from .std import values_cmp
+    xs = drain(vm, a[0]); ys = drain(vm, into_iter(vm, a[1]))
+    def left_first(x, y):
+        if ci.method == 'merge_by': return truth(vm, vm.call_value(a[2], [Ref(Cell(x)), Ref(Cell(y))]))
+        c = values_cmp(vm, '', x, y, True); return c is not None and c <= 0
+    out, i, j = [], 0, 0
+    while i < len(xs) and j < len(ys):
+        if left_first(xs[i], ys[j]): out.append(xs[i]); i += 1
+        else: out.append(ys[j]); j += 1
+    return It('list', out + xs[i:] + ys[j:], 0)
+
+
+@trait(('Itertools', 'dedup'), ('Itertools', 'dedup_by'), ('Itertools', 'unique'), ('Itertools', 'unique_by'))
+def _(vm, a, ci):
+    xs = drain(vm, a[0]); out = []; keys = []
+    for x in xs:
+        if ci.method == 'dedup': dup = bool(out) and truth(vm, values_eq(vm, '', out[-1], x))
+        elif ci.method == 'dedup_by': dup = bool(out) and truth(vm, vm.call_value(a[1], [Ref(Cell(out[-1])), Ref(Cell(x))]))
+        else:
+            k = x if ci.method == 'unique' else vm.call_value(a[1], [Ref(Cell(x))])
+            dup = any(truth(vm, values_eq(vm, '', k0, k)) for k0 in keys)
+            if not dup: keys.append(k)
+        if not dup: out.append(x)
+    return It('list', out, 0)
+
+
+@trait(('Itertools', 'interleave'), ('Itertools', 'intersperse'), ('Itertools', 'tuple_windows'), ('Itertools', 'all_equal'), ('Itertools', 'exactly_one'), ('Itertools', 'at_most_one'))
+def _(vm, a, ci):
+    m = ci.method
+    xs = drain(vm, a[0])
+    if m == 'interleave':
+        ys = drain(vm, into_iter(vm, a[1])); out = []
+        for i in range(max(len(xs), len(ys))):
+            if i < len(xs): out.append(xs[i])
+            if i < len(ys): out.append(ys[i])
+        return It('list', out, 0)
+    if m == 'intersperse':
+        out = []
+        for i, x in enumerate(xs):
+            if i: out.append(vm.clone_val(a[1]))
+            out.append(x)
+        return It('list', out, 0)
+    if m == 'tuple_windows':
+        k = 2
+        mm = re.search(r'\((.*)\)', ci.callee or '')
+        return It('list', [tup(*[vm.clone_val(v) for v in xs[i:i + k]]) for i in range(0, max(len(xs) - k + 1, 0))], 0)
+    if m == 'all_equal': return all(truth(vm, values_eq(vm, '', xs[0], x)) for x in xs[1:]) if xs else True
+    if m == 'exactly_one': return ok(xs[0]) if len(xs) == 1 else err(It('list', xs, 0))
+    if m == 'at_most_one': return ok(some(xs[0]) if xs else NONE()) if len(xs) <= 1 else err(It('list', xs, 0))
+    raise Unmodelled('Itertools::' + m)
 
 
 @trait(('Itertools', 'sorted_unstable'), ('Itertools', 'sorted'))
